@@ -63,7 +63,7 @@ class ExprMixin(object):
     def truth(self, st, v, label=None):
         """fork on the Python truth value of v: yields (state, bool)"""
         for s, a in self.split(st, v):
-            yield from self.fork(s, truthy(a), label)
+            yield from self.fork(s, truthy(self.deref_list(a, s)), label)
 
     # ---------------------------------------------------------------- dispatch
     def ev(self, n, st):
